@@ -32,6 +32,7 @@ import time
 
 VERIF = os.path.dirname(os.path.dirname(os.path.abspath(__file__)))
 REPO = os.environ.get("VERIF_REPO", "/repo")
+WORK = os.environ.get("VERIF_WORK", VERIF)   # where build/ and replay/ live (selftest points it at a scratch dir)
 sys.path.insert(0, os.path.join(VERIF, "run"))
 
 SOLVER_FLAGS = {
@@ -341,7 +342,7 @@ def flatten(prefix, v, out):
             flatten(prefix + "." + m["name"], m["value"], out)
     elif "elements" in v:
         for el in v["elements"]:
-            flatten("%s[%s]" % (prefix, el["index"]), el["value"], out)
+            flatten("%s[%s]" % (prefix, str(el["index"]).rstrip("lLuU")), el["value"], out)
     elif "data" in v:
         d = v["data"]
         if v.get("name") == "pointer":
@@ -468,7 +469,7 @@ def match_finding(findings, pid, hname, oname, inputs):
 # one harness, end to end
 
 def run_harness(pid, h, tier, keep):
-    wd = os.path.join(VERIF, "build", pid, h.name)
+    wd = os.path.join(WORK, "build", pid, h.name)
     shutil.rmtree(wd, ignore_errors=True)
     os.makedirs(wd)
     t0 = time.time()
@@ -491,6 +492,8 @@ def run_harness(pid, h, tier, keep):
         names = []
         for r in v["results"]:
             nm = obligation_name(r)
+            if r["description"] == "undefined function should be unreachable" and r["status"] != "SUCCESS":
+                raise ToolError("a function without body is reachable (DFCC): see trace of %s" % r["property"])
             mm = re.search(r"\.no-body\.(\S+)$", r["property"])
             if mm:
                 if mm.group(1) in h.externals:
@@ -540,7 +543,7 @@ def run_harness(pid, h, tier, keep):
 
 
 def write_replay(pid, h, fail, backend):
-    d = os.path.join(VERIF, "replay", pid)
+    d = os.path.join(WORK, "replay", pid)
     os.makedirs(d, exist_ok=True)
     path = os.path.join(d, "%s__%s.replay" % (h.name, slug(fail["name"])))
     loc = fail["location"]
@@ -610,7 +613,7 @@ def main():
     hs.sort(key=lambda h: -h.timeout)
     t0 = time.time()
     findings = load_findings()
-    rd = os.path.join(VERIF, "replay", pid)
+    rd = os.path.join(WORK, "replay", pid)
     if not args.only:
         shutil.rmtree(rd, ignore_errors=True)
     recs = []
@@ -729,7 +732,7 @@ def do_replay(registry, path):
         print("cannot find harness for", path)
         return 2
     h = hs[0]
-    wd = os.path.join(VERIF, "build", "replay")
+    wd = os.path.join(WORK, "build", "replay")
     shutil.rmtree(wd, ignore_errors=True)
     os.makedirs(wd)
     if not h.replayable:
